@@ -214,7 +214,10 @@ func (r *run) exec(a Label) (e ev, enabled bool, err error) {
 		}
 	}
 	if pn, _ := e["panic"].(bool); pn {
-		r.mismatch("replay:Bcast:parents-panic", fmt.Sprintf("%s: collecting the unconfirmed parents of the funded v%d transaction panicked in chain.Manager: %v", hx.JSON(a), wd.txs[a.T].ver, e["msg"]))
+		r.mismatch("replay:"+a.Op+":parents-panic", fmt.Sprintf("%s: collecting the unconfirmed parents of a wallet-funded transaction panicked in chain.Manager: %v", hx.JSON(a), e["msg"]))
+	}
+	if mo, _ := e["misordered"].(bool); mo {
+		r.mismatch("replay:Bcast:parent-order", fmt.Sprintf("%s: the pool rejected the funded transaction because the transaction set chain.Manager built for it lists a child before its parent: %v", hx.JSON(a), e["msg"]))
 	}
 	if dup, _ := e["dup"].(bool); dup {
 		r.mismatch("replay:Fund:dup-input", fmt.Sprintf("%s (options %s) returned a transaction that spends the same output twice: %s",
